@@ -2195,7 +2195,9 @@ class InstRWInfoTable extends core.Task {
               break;
           }
 
-          if (op.zext)
+          // Zero extension is a property of a register destination - a memory-only destination (`W:m64`) of another
+          // form must not leak it into the register form (`w:xmm[63:0]`) that shares the record.
+          if (op.zext && op.isReg())
             d.flags.ZExt = true;
 
           if (op.regIndexRel)
